@@ -104,8 +104,7 @@ class C13(Check):
     RULE = ('random bodies (requests, raise, sequencing, nested lock contexts on 4 datastore names incl. non-ASCII, depth <= 4) run as REAL '
             '`with m.locked(t):` blocks through Manager/LockContext/RPC on a stub session whose server answers each request by script '
             '(ok / rpc-error severity error / warning-only, with the RFC 6241 error-tags and error-types rotating), in 30 % of the runs with ONE context object per datastore entered again for every later `with`; the sequence of requests seen by the server and the exception seen by the '
-            'lock-denied error-info naming this session / 0 / another session / none, body exceptions rotating over RPCError, TimeoutExpiredError, TransportError, KeyboardInterrupt, Exception. '
-            'caller are compared with the model and with the property. Non-trivial = at least one lock context; distinct by (program, answers).')
+            'caller are compared with the model and with the property. lock-denied error-info naming this session / 0 / another session / none, body exceptions rotating over RPCError, TimeoutExpiredError, TransportError, KeyboardInterrupt, Exception. Non-trivial = at least one lock context; distinct by (program, answers).')
     TRUST = ['the Python `with` statement semantics (enter/exit protocol) as modelled in Model/Lock.lean']
 
     def cases(self, rng, tier):
